@@ -250,6 +250,7 @@ func TestC03(t *testing.T) {
 		"one boundary value at a time with all else zero, encode compared byte for byte and decode field for field with the reference, in v1 and v2; " +
 		"distinct = message types; evaluations = (type, field, element, value, version) probes")
 	rep.RuleAdd("Rounds 12-15: structs with fields of defined types and untagged enums, extension spellings, strings of 256 and more bytes, float arrays of signed zeros.")
+	rep.RuleAdd("Rounds 16-17: wire names outside ASCII.")
 	rep.Assume("spec derivation harness/ref.LayoutOf (stable sort by primitive size, extensions last, CRC_EXTRA as mavgen computes it), anchored by the published MAVLINK_MESSAGE_CRCS table")
 	seed := vh.Seed()
 	r := vh.Sub(seed, "c03")
